@@ -26,7 +26,7 @@ func redundantSprint(m dsl.Matcher) {
 //doc:after   defer f()
 func deferUnlambda(m dsl.Matcher) {
 	m.Match(`defer func() { $f($*args) }()`).
-		Where(m["f"].Node.Is(`Ident`) && m["f"].Text != "panic" && m["f"].Text != "recover" && m["args"].Const).
+		Where(m["f"].Node.Is(`Ident`) && m["f"].Object.Is(`Func`) && m["args"].Const).
 		Report("can rewrite as `defer $f($args)`")
 
 	m.Match(`defer func() { $pkg.$f($*args) }()`).
